@@ -20,6 +20,15 @@ def Mol.Inv (m : Mol) : Prop := m.Wf ∧ m.CacheOk
 
 def PoolInv (p : Pool) : Prop := ∀ m ∈ p, m.Inv
 
+/-- every attribute dict of the bond table belongs to a bond that exists (so a bond that was
+removed and is added again starts with an empty attribute dict) -/
+def Mol.EaOk (m : Mol) : Prop := ∀ x ∈ m.eattr, m.hasEdge x.1.1 x.1.2 = true
+
+/-- the extended invariant of the extension round: `Inv` plus the bond attribute table -/
+def Mol.InvE (m : Mol) : Prop := m.Inv ∧ m.EaOk
+
+def PoolInvE (p : Pool) : Prop := ∀ m ∈ p, m.InvE
+
 theorem Mol.cacheOk_iff (m : Mol) :
     m.CacheOk ↔ (m.nodes ≠ [] → m.maxNode = none ∨ m.maxNode = maxKey m.keys) := by
   unfold Mol.CacheOk
@@ -37,6 +46,9 @@ instance (m : Mol) : Decidable m.Wf := by unfold Mol.Wf; exact inferInstance
 instance (m : Mol) : Decidable m.CacheOk := decidable_of_iff _ (Mol.cacheOk_iff m).symm
 instance (m : Mol) : Decidable m.Inv := by unfold Mol.Inv; exact inferInstance
 instance (p : Pool) : Decidable (PoolInv p) := by unfold PoolInv; exact inferInstance
+instance (m : Mol) : Decidable m.EaOk := by unfold Mol.EaOk; exact inferInstance
+instance (m : Mol) : Decidable m.InvE := by unfold Mol.InvE; exact inferInstance
+instance (p : Pool) : Decidable (PoolInvE p) := by unfold PoolInvE; exact inferInstance
 
 theorem mem_keys_iff (m : Mol) (k : Int) : m.hasNode k = true ↔ k ∈ m.keys := by
   simp [Mol.hasNode]
@@ -393,7 +405,7 @@ theorem addEdge_wf {m : Mol} (h : m.Wf) (u v : Int) : (m.addEdge u v).Wf := by
 /-! ### interactions -/
 
 theorem addInter_inv {m : Mol} (h : m.Inv) (ty : String) (atoms : List Int) (params : String)
-    (version : Int) : (m.addInter ty atoms params version).1.Inv := by
+    (version : Option Int) (edge : Bool := true) : (m.addInter ty atoms params version edge).1.Inv := by
   unfold Mol.addInter
   split
   · rename_i hall
@@ -452,10 +464,11 @@ theorem removeFirst_sub (l : List (String × Inter)) (ty : String) (atoms : List
         · exact List.mem_cons_of_mem _ (ih r hr ti hti)
 
 theorem addOrReplace_inv {m : Mol} (h : m.Inv) (ty : String) (atoms : List Int) (params : String)
-    (version : Int) (cites : List String) : (m.addOrReplace ty atoms params version cites).1.Inv := by
+    (version : Option Int) (cites : List String) (edge : Bool := true) :
+    (m.addOrReplace ty atoms params version cites edge).1.Inv := by
   unfold Mol.addOrReplace
   dsimp only
-  cases hr : replaceFirst m.inters ty { atoms := atoms, params := params, version := version } with
+  cases hr : replaceFirst m.inters ty { atoms := atoms, params := params, version := version, edge := edge } with
   | some l =>
     obtain ⟨⟨k1, k2, k3⟩, k4⟩ := h
     refine ⟨⟨k1, k2, ?_⟩, k4⟩
@@ -463,9 +476,9 @@ theorem addOrReplace_inv {m : Mol} (h : m.Inv) (ty : String) (atoms : List Int) 
     obtain ⟨tj, htj, e⟩ := replaceFirst_atoms _ _ _ _ hr ti hti
     exact k3 tj htj a (e ▸ ha)
   | none =>
-    have h2 := addInter_inv h ty atoms params version
+    have h2 := addInter_inv h ty atoms params version edge
     simp only []
-    cases hai : m.addInter ty atoms params version with
+    cases hai : m.addInter ty atoms params version edge with
     | mk m' o =>
       rw [hai] at h2
       cases o <;> exact h2
@@ -695,8 +708,8 @@ theorem filterMap_lookup_self (ns : List (Int × Attrs)) (hnd : (ns.map Prod.fst
     simp only [List.map_cons, List.filterMap_cons, this, Option.map_some]
     rw [ih (fun q hq => hsub q (List.mem_cons_of_mem _ hq))]
 
-/-- under the invariant a copy has exactly the content of its source (the cache is reset) -/
-theorem copy_eq {m : Mol} (h : m.Inv) : m.copy = { m with maxNode := none } := by
+/-- under the (extended) invariant a copy has exactly the content of its source (the cache is reset) -/
+theorem copy_eq {m : Mol} (h : m.Inv) (he : m.EaOk) : m.copy = { m with maxNode := none } := by
   obtain ⟨⟨k1, k2, k3⟩, _⟩ := h
   unfold Mol.copy Mol.subgraph
   have hall : m.keys.all m.hasNode = true := by
@@ -712,10 +725,22 @@ theorem copy_eq {m : Mol} (h : m.Inv) : m.copy = { m with maxNode := none } := b
   have e3 : m.inters.filter (fun ti => ti.2.atoms.all (fun a => m.keys.contains a)) = m.inters := by
     rw [List.filter_eq_self]; intro ti hti
     simp only [List.all_eq_true, List.contains_eq_mem, decide_eq_true_eq]; exact k3 ti hti
-  rw [e1, e2, e3]
+  have e4 : m.eattr.filter (fun x => m.keys.contains x.1.1 && m.keys.contains x.1.2) = m.eattr := by
+    rw [List.filter_eq_self]; intro x hx
+    simp only [Bool.and_eq_true, List.contains_eq_mem, decide_eq_true_eq]
+    rcases (hasEdge_iff m _ _).mp (he x hx) with h' | h'
+    · exact k2 _ h'
+    · exact ⟨(k2 _ h').2, (k2 _ h').1⟩
+  rw [e1, e2, e3, e4]
 
 theorem copy_inv {m : Mol} (h : m.Inv) : m.copy.Inv := by
-  rw [copy_eq h]; exact Mol.inv_of_wf_none h.1 rfl
+  have hall : m.keys.all m.hasNode = true := by
+    rw [List.all_eq_true]; intro k hk; exact (mem_keys_iff m k).mpr hk
+  cases hs : m.subgraph m.keys with
+  | none => unfold Mol.subgraph at hs; rw [if_pos hall] at hs; cases hs
+  | some s =>
+    have := subgraph_inv m.keys s hs
+    unfold Mol.copy; rw [hs]; exact this
 
 /-! ### a run of `add_edge` (merge, to_molecule) -/
 
@@ -772,5 +797,63 @@ theorem addEdges_hasEdge (m : Mol) (es : List (Int × Int)) (a b : Int) :
     rw [addEdges_cons, ih, addEdge_hasEdge]
     simp only [List.mem_cons, exists_eq_or_imp]
     rw [or_assoc]
+
+/-! ### extension round: bond attributes, bond removal, bonds from interactions, log entries -/
+
+theorem addEdgeA_inv {m : Mol} (h : m.Inv) (u v : Int) (a : EAttrs) : (m.addEdgeA u v a).Inv :=
+  addEdge_inv h u v
+
+theorem addEdgeA_wf {m : Mol} (h : m.Wf) (u v : Int) (a : EAttrs) : (m.addEdgeA u v a).Wf :=
+  addEdge_wf h u v
+
+theorem foldl_addEdgeA_wf {m : Mol} (h : m.Wf) (l : List (Int × Int × EAttrs)) :
+    (l.foldl (fun acc e => acc.addEdgeA e.1 e.2.1 e.2.2) m).Wf := by
+  induction l generalizing m with
+  | nil => exact h
+  | cons e t ih => exact ih (addEdgeA_wf h _ _ _)
+
+theorem addEdgesA_inv {m : Mol} (h : m.Inv) (l : List (Int × Int × EAttrs)) : (m.addEdgesA l).Inv :=
+  Mol.inv_of_wf_none (foldl_addEdgeA_wf h.1 l) rfl
+
+theorem dropEdges_inv {m : Mol} (h : m.Inv) (l : List (Int × Int)) : (m.dropEdges l).Inv := by
+  obtain ⟨⟨k1, k2, k3⟩, k4⟩ := h
+  refine ⟨⟨k1, ?_, k3⟩, k4⟩
+  intro e he
+  exact k2 e (List.mem_filter.mp he).1
+
+theorem addPath_inv {m : Mol} (h : m.Inv) (atoms : List Int) : (m.addPath atoms).Inv :=
+  Mol.inv_of_wf_none (addEdges_wf h.1 (consecPairs atoms)) rfl
+
+theorem foldl_inv {α : Type} (f : Mol → α → Mol) (hf : ∀ m x, m.Inv → (f m x).Inv) (l : List α) {m : Mol}
+    (h : m.Inv) : (l.foldl f m).Inv := by
+  induction l generalizing m with
+  | nil => exact h
+  | cons x t ih => exact ih (hf m x h)
+
+theorem makeEdgesType_inv {m : Mol} (h : m.Inv) (ty : String) : (m.makeEdgesType ty).Inv :=
+  foldl_inv _ (fun m' ti hm => addPath_inv hm ti.2.atoms) _ h
+
+theorem makeEdgesAll_inv {m : Mol} (h : m.Inv) : m.makeEdgesAll.Inv :=
+  foldl_inv _ (fun m' ty hm => makeEdgesType_inv hm ty) _ h
+
+theorem addLog_inv {m : Mol} (h : m.Inv) (lvl : Int) (entry : String) (args : List FmtArg) :
+    (m.addLog lvl entry args).Inv := h
+
+/-- what `Molecule.clear()` leaves of the invariant: the interactions stay, so it survives exactly
+when no interaction has an atom -/
+theorem clear_inv_iff (m : Mol) : m.clear.Inv ↔ ∀ ti ∈ m.inters, ti.2.atoms = [] := by
+  constructor
+  · intro h ti hti
+    have := h.1.2.2 ti hti
+    cases hat : ti.2.atoms with
+    | nil => rfl
+    | cons a t => have := this a (by rw [hat]; exact List.mem_cons_self); cases this
+  · intro h
+    apply Mol.inv_of_wf_none _ rfl
+    refine ⟨List.nodup_nil, ?_, ?_⟩
+    · intro e he; cases he
+    · intro ti hti a ha
+      have : ti ∈ m.inters := hti
+      rw [h ti this] at ha; cases ha
 
 end C12
